@@ -316,6 +316,18 @@ pub fn oracle(line: &str) -> String {
             match first { Ok(Err(_)) => {}, Ok(Ok(_)) => return "fail a macro size of 20.00005 microns was imported without error".into(), Err(_) => return "fail import panicked on a non-integral size".into() }
             let second = match std::panic::catch_unwind(std::panic::AssertUnwindSafe(|| raw::lef::LefImporter::import(&good, Some(shared.clone())))) {
                 Ok(Ok(lib)) => lib_result(&lib), Ok(Err(_)) => "err".into(), Err(_) => "panic".into() };
+            // the other order: a GOOD import first, then the failing one into the same layer set — the library imported first
+            // must still print the same (its shapes still sit on layers with their names), also after one more good import
+            let shared2 = layout21raw::utils::Ptr::new(raw::Layers::default());
+            if let Ok(Ok(lib1)) = std::panic::catch_unwind(std::panic::AssertUnwindSafe(|| raw::lef::LefImporter::import(&good, Some(shared2.clone())))) {
+                let _ = std::panic::catch_unwind(std::panic::AssertUnwindSafe(|| raw::lef::LefImporter::import(&bad, Some(shared2.clone()))));
+                let after_fail = std::panic::catch_unwind(std::panic::AssertUnwindSafe(|| lib_result(&lib1))).unwrap_or("panic".into());
+                if after_fail != want { return "fail a library imported earlier no longer shows its shapes on the layers named in the LEF after a LATER import into the same layer set failed".into(); }
+                let third = match std::panic::catch_unwind(std::panic::AssertUnwindSafe(|| raw::lef::LefImporter::import(&good, Some(shared2.clone())))) { Ok(Ok(l)) => lib_result(&l), Ok(Err(_)) => "err".into(), Err(_) => "panic".into() };
+                if third != want { return "fail good import – failed import – good import through one layer set: the last import differs from a fresh one".into(); }
+                let again = std::panic::catch_unwind(std::panic::AssertUnwindSafe(|| lib_result(&lib1))).unwrap_or("panic".into());
+                if again != want { return "fail a library imported earlier changed when the same LEF was imported again into its layer set after a failed import".into(); }
+            } else { return "fail import into an empty caller-supplied layer set failed".into(); }
             if second != want {
                 let i = second.bytes().zip(want.bytes()).position(|(a, b)| a != b).unwrap_or(second.len().min(want.len()));
                 return format!("fail after a failed import into the same layer set the import differs at char {}: got …{}… want …{}…", i, &second[i.saturating_sub(20)..second.len().min(i + 40)], &want[i.saturating_sub(20)..want.len().min(i + 40)]);
